@@ -1,6 +1,7 @@
 (* C14 / part fft: runner. Decodes a case (kinds 200..299), runs the model, encodes the result. Executable only. *)
 From Coq Require Import List ZArith QArith Bool.
 From Gst Require Import lib.Sx lib.QAux C14.FFT.
+From Gst Require C16.Model.
 Import ListNotations.
 Local Open Scope Z_scope.
 
@@ -34,7 +35,27 @@ Definition run_fft (c : sx) : sx :=
   | L [I 210; I ndim; I a; I b; I c] =>
       let d := mkD a b c in
       if good_dims_b ndim d && (a * b * c <=? 100000) then run_sym ndim d else sx_error 2
-  (* (220 ...) second-moment check of the whole simulator: numeric evidence on the implementation only *)
+  (* (220 ndim (nx ny nz) covtype sill ranges angles percent alias (dx..) (grid angles..) (x0..) (rotation matrix rows | ())):
+     second-moment check of the whole simulator on a possibly rotated grid. The moments are numeric evidence on the implementation;
+     the model gives, exactly, for every index offset between two output nodes: the lag computed as _prepar does
+     (lag_of (step_mat g)), the transposed reading (regression form) and the coordinate difference node(l) - node(0). *)
+  | L [I 220; I nd; nxs; _; _; _; _; _; _; dxs; _; x0s; rm] =>
+      match asListOf asZ nxs, asRow dxs, asRow x0s, asMat rm with
+      | Some nx, Some dx, Some x0, Some M =>
+          let n := Z.to_nat nd in
+          let g := {| C16.Model.g_nx := firstn n nx; C16.Model.g_x0 := firstn n x0; C16.Model.g_dx := firstn n dx;
+                      C16.Model.g_rot := match M with [] => C16.Model.rot_identity n | _ => C16.Model.rot_of_matrix n M end |} in
+          let span (k : nat) := let m := nth k nx 1 in if (k <? n)%nat then zr (1 - m) m else [0] in
+          let offs := flat_map (fun lz => flat_map (fun ly => map (fun lx => firstn n [lx; ly; lz]) (span 0%nat)) (span 1%nat)) (span 2%nat) in
+          let X1 := step_mat g n in
+          let vec (v : list Q) := ofList ofQ v in
+          if (1 <=? nd) && (nd <=? 3) then
+            L [ ofList (fun l => vec (lag_of X1 n l)) offs;
+                ofList (fun l => vec (lag_of_transposed X1 n l)) offs;
+                ofList (fun l => vec (C16.Model.vsub (C16.Model.node g l) (C16.Model.node g (zero_ind n)))) offs ]
+          else sx_error 2
+      | _, _, _, _ => sx_error 1
+      end
   | L (I 220 :: _) => L []
   (* (240 ...) convention of fftn, (271 ...) real simuSpectral recomputed in floating point: implementation only *)
   | L (I 240 :: _) => L []
